@@ -193,6 +193,7 @@ func (x *Exec) exitNormal(s *State, rs []Val) {
 	c := x.contract
 	s.comment("normal exit")
 	x.cover(s, x.entryKey+"#cover:exit")
+	checkAllocs := func() {
 	// objects of types with a type invariant allocated here must satisfy it
 	for _, a := range s.tiAllocs {
 		for _, ti := range x.w.typeInvs[a.key] {
@@ -204,7 +205,9 @@ func (x *Exec) exitNormal(s *State, rs []Val) {
 			s.goal(x.entryKey+"#typeinv:"+ti.cl.Name(), "typeinv", ti.cl.Props(), t, ti.cl.Where, ti.cl.Src)
 		}
 	}
+	}
 	if c == nil {
+		checkAllocs()
 		return
 	}
 	env := x.entryEnv(s)
@@ -219,6 +222,9 @@ func (x *Exec) exitNormal(s *State, rs []Val) {
 	}
 	env.old.vars = env.vars
 	x.bindLets(env, c, true)
+	x.runGhostSets(s, c, env)
+	env = env.withHeap(s.heap, s.ghost, s.alloc)
+	checkAllocs()
 	for ei, e := range c.Ensures {
 		if e.Kind == "onpanic" {
 			continue
@@ -956,4 +962,62 @@ func pkgCanName(fn *ssa.Function, pkg *types.Package) bool {
 		return false
 	}
 	return walk(fn.Pkg.Pkg)
+}
+
+// runGhostSets executes the contract's ghost assignments (normal exit only).
+// Targets are ghost fields, so real state cannot be influenced.
+func (x *Exec) runGhostSets(s *State, c *Contract, env *Env) {
+	w := x.w
+	for _, gs := range c.GhostSets {
+		func() {
+			defer func() {
+				if r := recover(); r != nil {
+					if se, ok := r.(specErr); ok {
+						x.unsup("spec error: %s in ghostset %q (%s)", se.msg, gs.Src, gs.Where)
+					}
+					panic(r)
+				}
+			}()
+			cur := env.withHeap(s.heap, s.ghost, s.alloc)
+			ov := cur.eval(gs.Obj)
+			base := cur.rv(ov)
+			if ov.gt == nil {
+				x.unsup("ghostset: untyped target in %q (%s)", gs.Src, gs.Where)
+			}
+			pt, ok := ov.gt.Underlying().(*types.Pointer)
+			if !ok {
+				x.unsup("ghostset: target is not a pointer in %q (%s)", gs.Src, gs.Where)
+			}
+			key := typeKey(pt.Elem()) + "." + gs.Field
+			sort, ok := w.ghostFlds[key]
+			if !ok {
+				x.unsup("ghostset: %s is not a ghost field (%s)", key, gs.Where)
+			}
+			arr := w.heapArray("G."+key, arraySort("Int", sort))
+			var val Term
+			if gs.Var == "" {
+				v := cur.eval(gs.Val)
+				if v.nil {
+					val = w.zeroOfSort(sort)
+				} else {
+					val = cur.rv(v)
+				}
+				if val.Sort != sort {
+					x.unsup("ghostset: value of sort %s assigned to ghost field of sort %s (%s)", val.Sort, sort, gs.Where)
+				}
+			} else {
+				gt, ks := w.resolveType(cur.pkg, gs.VarT)
+				x.counter++
+				iv := Term{q(fmt.Sprintf("%s!g%d", gs.Var, x.counter)), ks}
+				ne := cur.child()
+				ne.quantified = true
+				ne.vars[gs.Var] = SVal{t: iv, gt: gt}
+				body := ne.rv(ne.eval(gs.Val))
+				val = s.fresh("ghostmap", sort)
+				s.assume(Term{fmt.Sprintf("(forall ((%s %s)) (! (= (select %s %s) %s) :pattern ((select %s %s)) :qid ghostmap))", iv.S, sortText(ks), val.S, iv.S, body.S, val.S, iv.S), "Bool"})
+			}
+			s.markWrite(arr, base)
+			s.setH(arr, mkStore(s.H(arr), base, val))
+		}()
+	}
 }
